@@ -15,6 +15,7 @@ import (
 	"strings"
 	"sync"
 
+	"github.com/99designs/gqlgen/complexity"
 	"github.com/99designs/gqlgen/graphql"
 	"github.com/vektah/gqlparser/v2/gqlerror"
 
@@ -123,12 +124,13 @@ func (p *logPlan) Directive(path, name string) int {
 type extCore struct {
 	idx  int
 	mask int
+	es   graphql.ExecutableSchema
 }
 
 type extBase struct{ c *extCore }
 
 func (b extBase) ExtensionName() string                          { return "verifExt" + strconv.Itoa(b.c.idx) }
-func (b extBase) Validate(schema graphql.ExecutableSchema) error { return nil }
+func (b extBase) Validate(schema graphql.ExecutableSchema) error { b.c.es = schema; return nil }
 
 type mPM struct{ c *extCore }
 
@@ -148,6 +150,11 @@ func (m mCM) MutateOperationContext(ctx context.Context, oc *graphql.OperationCo
 	l := getLog(ctx)
 	l.add(hev{Kind: "cm", Phase: 'E', Ext: m.c.idx})
 	defer l.add(hev{Kind: "cm", Phase: 'X', Ext: m.c.idx})
+	// what extension.ComplexityLimit does at this gate: the generated Complexity() of every selected
+	// field runs before the operation is accepted; it must not reach a directive or resolver
+	if m.c.es != nil && oc.Operation != nil {
+		_ = complexity.Calculate(ctx, m.c.es, oc.Operation, oc.Variables)
+	}
 	if l != nil && l.rejectKind == "cm" && l.rejectExt == m.c.idx {
 		return gqlerror.Errorf("REJECT-BY-CM-%d", m.c.idx)
 	}
